@@ -63,6 +63,19 @@ class Script(System):
         self.out = o
 
 
+class Hook(System):
+    """Runs first in every timestep; the driver may hand it something to do (e.g. step ANOTHER model from inside this one)."""
+
+    def __init__(self, model):
+        super().__init__("hook", model, priority=9)
+        self.todo = None
+
+    def execute(self):
+        if self.todo is not None:
+            todo, self.todo = self.todo, None
+            todo()
+
+
 class Traj(Collector):
     """Records the full observation of every timestep (also what a batch worker returns)."""
 
@@ -87,6 +100,7 @@ class StochModel(Model):
             self.set_environment(SpaceWorld(self, 6.0, 4.0))
         for i in range(n):
             self.add_one("a%d" % i, tag=i % 2, comp=(i % 3 != 0))
+        self.systems.add_system(Hook(self))
         self.systems.add_system(Script(self, mix.split(",")))
         self.systems.add_system(AgentCollector(self, lambda a: (len(a.id) * 10 + a.tag) if a.tag else None, id="ac", priority=-1))
         self.systems.add_system(Traj("traj", self, priority=-2))
@@ -146,6 +160,15 @@ def run_inline(prog):
             copies[k].execute()
         elif step[0] == "P":
             perturb(step[1], salt)
+        elif step[0] == "N":
+            # the other model is stepped from INSIDE the next timestep of copy k (by its hook system)
+            k = step[1]
+            if k not in copies:
+                copies[k] = StochModel(prog["seed"], c["kind"], c["n"], c["mix"])
+            if other is None:
+                other = StochModel(100003 + salt, c["kind"], c["n"] + 1, c["mix"])
+            copies[k].systems["hook"].todo = other.execute
+            copies[k].execute()
         elif step[0] == "B":
             if other is None:
                 other = StochModel(100003 + salt, c["kind"], c["n"] + 1, c["mix"])
@@ -182,6 +205,27 @@ def run_worker(prog):
     return [{"op": "run", "key": _key(prog), "copy": k + 1, "where": "worker", "out": "ok", "steps": r} for k, r in enumerate(res)]
 
 
+def _digest(steps):
+    import hashlib
+    return int(hashlib.sha1(json.dumps(steps, sort_keys=True).encode()).hexdigest()[:7], 16)
+
+
+def _score(model):
+    return _digest(model.systems["traj"].records)
+
+
+def run_search(prog):
+    """The same (configuration, seed) run as the repetitions of a grid_search; the score is a digest of the trajectory."""
+    from ECAgent.Batching import grid_search
+    c = prog["config"]
+    steps = max(1, sum(1 for s in prog["schedule"] if s[0] == "A" and s[1] == 1))
+    perturb(1, steps)
+    best, results = grid_search(StochModel, {"seed": prog["seed"], "kind": c["kind"], "n": c["n"], "mix": c["mix"]}, _score,
+                                processes=prog.get("procs", 1), max_timesteps=steps, repetitions=3)
+    return [{"op": "run", "key": _key(prog) + "/digest of %d steps" % steps, "copy": k + 1, "where": "grid_search", "out": "ok",
+             "steps": [{"t": -2, "digest": int(r)}]} for k, r in enumerate(results[0]["records"])]
+
+
 def run_fresh(prog):
     env = dict(os.environ)
     env["VERIF_REPO"] = common.REPO
@@ -201,10 +245,16 @@ def run_fresh(prog):
 def run_program(prog):
     """One trace: the reference run (inline, no perturbation) followed by the runs of the program."""
     c = prog["config"]
-    n_steps = max(1, sum(1 for s in prog["schedule"] if s[0] == "A" and s[1] == 1), sum(1 for s in prog["schedule"] if s[0] == "A" and s[1] == 2))
+    n_steps = max(1, sum(1 for s in prog["schedule"] if s[0] in ("A", "N") and s[1] == 1),
+                  sum(1 for s in prog["schedule"] if s[0] in ("A", "N") and s[1] == 2))
     ref = run_inline({"config": c, "seed": prog["seed"], "schedule": [["A", 1]] * n_steps,
                       "finale": prog.get("where", "inline") != "worker"})
     where = prog.get("where", "inline")
+    if where == "search":
+        ref = run_inline({"config": c, "seed": prog["seed"], "schedule": [["A", 1]] * n_steps, "finale": False})
+        ref = [{"op": "run", "key": _key(prog) + "/digest of %d steps" % n_steps, "copy": 0, "where": "inline", "out": "ok",
+                "steps": [{"t": -2, "digest": _digest(ref[0]["steps"])}]}]
+        return ref + run_search(prog)
     if where == "inline":
         rest = run_inline(prog)
     elif where == "worker":
@@ -242,6 +292,10 @@ def random_schedule(rng, steps=6):
             out.append(["P", rng.randint(0, 2)])
         elif r < 0.4:
             out.append(["B"])
+        elif r < 0.5 and (left[1] or left[2]):
+            k = rng.choice([c for c in (1, 2) if left[c]])
+            left[k] -= 1
+            out.append(["N", k])
         else:
             k = rng.choice([c for c in (1, 2) if left[c]])
             left[k] -= 1
